@@ -141,7 +141,7 @@ End LinkMtC12.
 (** ** htlc: [invb] derived from the message-level model of the htlc group ([Htlc/Model.v], [Htlc/Proofs.v]:
     [Inv], [Strict]) plus the small invariant [J] of [Genesis/LinkHtlc.v].  Histories: from a genesis with
     parameters that Keeper.SetParams accepts and an empty escrow account, any operations WITHOUT parameter
-    changes ([wf_op]; a MsgUpdateParams can make the exported genesis un-importable — known finding, clause 7
+    changes ([wf0]: it implies the htlc group's run-dependent [wf_run]; a MsgUpdateParams can make the exported genesis un-importable — known finding, clause 7
     of the check) whose transfers carry a timestamp ([ts_ok]).  [rk] numbers the contract ids (injective on the
     ids of the state), [oth] gives the lengths of the other-chain address strings.  [abs] is the whole store,
     [abs_o] the store without the closed contracts (which ExportGenesis drops, documented). *)
@@ -151,7 +151,7 @@ Import Genesis.LinkHtlc.
 Theorem reachable_htlc :
   forall (rk : M.cid -> Z) (hl : M.hlock -> Z) (rs : Z -> Z) (oth : M.cid -> Z * Z),
   (forall id, fst (oth id) <= 128 /\ snd (oth id) <= 128) ->
-  forall P b t0 ops, M.params_valid P = true -> MP.escrow_empty b -> Forall MP.wf_op ops -> Forall ts_ok ops ->
+  forall P b t0 ops, M.params_valid P = true -> MP.escrow_empty b -> Forall wf0 ops -> Forall ts_ok ops ->
   inj_on rk (map fst (M.st_contracts (MP.reachable P b t0 ops))) ->
   G.invb true (abs_o rk hl rs oth (MP.reachable P b t0 ops)) = true.
 Proof. exact LinkHtlc.reachable_htlc. Qed.
@@ -160,7 +160,7 @@ Print Assumptions reachable_htlc.
 Theorem htlc_history_export_validates :
   forall (rk : M.cid -> Z) (hl : M.hlock -> Z) (rs : Z -> Z) (oth : M.cid -> Z * Z),
   (forall id, fst (oth id) <= 128 /\ snd (oth id) <= 128) ->
-  forall P b t0 ops, M.params_valid P = true -> MP.escrow_empty b -> Forall MP.wf_op ops -> Forall ts_ok ops ->
+  forall P b t0 ops, M.params_valid P = true -> MP.escrow_empty b -> Forall wf0 ops -> Forall ts_ok ops ->
   inj_on rk (map fst (M.st_contracts (MP.reachable P b t0 ops))) ->
   G.validate true (G.export (abs rk hl rs oth (MP.reachable P b t0 ops))) = true.
 Proof. exact LinkHtlc.htlc_history_export_validates. Qed.
@@ -171,7 +171,7 @@ Print Assumptions htlc_history_export_validates.
 Theorem htlc_history_import_is_open_part :
   forall (rk : M.cid -> Z) (hl : M.hlock -> Z) (rs : Z -> Z) (oth : M.cid -> Z * Z),
   (forall id, fst (oth id) <= 128 /\ snd (oth id) <= 128) ->
-  forall P b t0 ops, M.params_valid P = true -> MP.escrow_empty b -> Forall MP.wf_op ops -> Forall ts_ok ops ->
+  forall P b t0 ops, M.params_valid P = true -> MP.escrow_empty b -> Forall wf0 ops -> Forall ts_ok ops ->
   inj_on rk (map fst (M.st_contracts (MP.reachable P b t0 ops))) ->
   G.import true (G.export (abs rk hl rs oth (MP.reachable P b t0 ops))) = Some (abs_o rk hl rs oth (MP.reachable P b t0 ops)).
 Proof. exact LinkHtlc.htlc_history_import_is_open_part. Qed.
@@ -180,7 +180,7 @@ Print Assumptions htlc_history_import_is_open_part.
 Theorem htlc_history_fixpoint_and_queries :
   forall (rk : M.cid -> Z) (hl : M.hlock -> Z) (rs : Z -> Z) (oth : M.cid -> Z * Z),
   (forall id, fst (oth id) <= 128 /\ snd (oth id) <= 128) ->
-  forall P b t0 ops, M.params_valid P = true -> MP.escrow_empty b -> Forall MP.wf_op ops -> Forall ts_ok ops ->
+  forall P b t0 ops, M.params_valid P = true -> MP.escrow_empty b -> Forall wf0 ops -> Forall ts_ok ops ->
   inj_on rk (map fst (M.st_contracts (MP.reachable P b t0 ops))) ->
   exists s', G.import true (G.export (abs rk hl rs oth (MP.reachable P b t0 ops))) = Some s'
     /\ G.export s' = G.export (abs rk hl rs oth (MP.reachable P b t0 ops))
@@ -194,7 +194,7 @@ Print Assumptions htlc_history_fixpoint_and_queries.
 Theorem htlc_history_prep :
   forall (rk : M.cid -> Z) (hl : M.hlock -> Z) (rs : Z -> Z) (oth : M.cid -> Z * Z),
   (forall id, fst (oth id) <= 128 /\ snd (oth id) <= 128) ->
-  forall P b t0 ops, M.params_valid P = true -> MP.escrow_empty b -> Forall MP.wf_op ops -> Forall ts_ok ops ->
+  forall P b t0 ops, M.params_valid P = true -> MP.escrow_empty b -> Forall wf0 ops -> Forall ts_ok ops ->
   let s := MP.reachable P b t0 ops in
   inj_on rk (map fst (M.st_contracts s)) ->
   (forall id c, In (id, c) (M.st_contracts s) -> M.c_exp c < G.two64) ->
